@@ -34,7 +34,7 @@ ASSUMPTIONS = [
     "summation order inside a bin is unspecified: sums compared with tolerance 64 ulp x sum|v|",
     "a float32 value layer may be accumulated in float32 (judged at 64 float32 ulps); coordinates are float64 or integers (single-precision coordinates were tried and withdrawn, DESIGN 9.15)",
     "the large-input runs of the anchor are direct executions of the compiled kernel (one numba thread; one stress run with all threads whose record is coarse on purpose)",
-    "where a layer holds a NaN for a point, the value of that layer in the bin of that point is not judged (NaN and a NaN-skipping sum are both accepted); every other layer is judged as usual",
+    "where a layer holds a NaN or an infinity for a point, the value of that layer in the bin of that point is not judged (a non-finite result and a sum that skips such values are both accepted); every other layer is judged as usual",
 ]
 REAL_STUB = {
     "real": ["osyris.histogram2d front-end", "parse_layer / Layer", "Array/Vector", "unit handling", "hist2d kernel source (executed by CPython)"],
@@ -131,6 +131,10 @@ def generate(rng, tier):
                 ax[side] = _fl(math.floor(ax[side] * k) + rng.choice([0.5, 0.5, 0.25, 0.0]))
         if ax["lo"] is not None and ax["hi"] is not None and not ax["hi"] > ax["lo"]:
             ax["hi"] = ax["lo"] + 1.0
+    for a in (ax, ay):
+        # explicit limits given with a unit (a Quantity), in the unit of the axis or in a compatible one
+        if (a["lo"] is not None or a["hi"] is not None) and rng.random() < 0.12:
+            a["q"] = rng.choice(["same", "other"])
     layers = []
     for _ in range(rng.choice([0, 0, 1, 1, 2, 3])):
         layers.append({
@@ -149,9 +153,9 @@ def generate(rng, tier):
         elif l["dtype"] in ("i8", "i4"):
             l["values"] = [float(int(round(v))) for v in l["values"]]
         if l["dtype"] in ("f8", "f4") and n and rng.random() < 0.15:
-            # a quantity that is undefined for some points (NaN): its own bins are not judged there, every other layer is
+            # a quantity that is undefined for some points (NaN, +-inf): its own bins are not judged there, every other layer is
             for i in rng.sample(range(n), min(n, rng.choice([1, 1, 2, 3]))):
-                l["values"][i] = float("nan")
+                l["values"][i] = rng.choice([float("nan"), float("nan"), float("inf"), float("-inf")])
     # several layers may show the very same Array object with different operations (image + contours of one quantity)
     for k in range(1, len(layers)):
         if rng.random() < 0.3:
@@ -255,6 +259,24 @@ def call_frontend(case, sim_factory, reuse=None, call_op="__case__"):
     return plot, seam.calls
 
 
+OTHER_UNIT = {"cm": ("m", 0.01), "g/cm**3": ("kg/m**3", 1000.0), "": ("percent", 100.0)}
+
+
+def _limit(val, q, unit):
+    """An explicit limit as a bare number, or as a Quantity in the unit of the axis ("same") or in a compatible unit ("other",
+    only when the conversion back to the axis unit returns the very same number)."""
+    if not q:
+        return val
+    import osyris
+
+    if q == "other":
+        other, fac = OTHER_UNIT[unit]
+        Q = (val * fac) * osyris.units(other)
+        if float(Q.to(osyris.units(unit)).magnitude) == val:
+            return Q
+    return val * osyris.units(unit)
+
+
 def frontend_kwargs(case, call_op):
     kw = {"resolution": case["res"], "plot": False}
     if case.get("loglog"):
@@ -263,9 +285,9 @@ def frontend_kwargs(case, call_op):
         kw["logx"], kw["logy"] = case["x"]["log"], case["y"]["log"]
     for name, a in (("x", case["x"]), ("y", case["y"])):
         if a["lo"] is not None:
-            kw[name + "min"] = a["lo"]
+            kw[name + "min"] = _limit(a["lo"], a.get("q"), case["xunit"] if name == "x" else "")
         if a["hi"] is not None:
-            kw[name + "max"] = a["hi"]
+            kw[name + "max"] = _limit(a["hi"], a.get("q"), case["xunit"] if name == "x" else "")
     if call_op is not None:
         kw["operation"] = call_op
     return kw
@@ -642,8 +664,8 @@ def execute(case, stats):
     lay_eps = [float(np.finfo(np.float32).eps) if (nl and case["layers"][k].get("dtype") == "f4") else float(np.finfo(float).eps) for k in range(len(lay_vals))]
     for l in case["layers"]:
         stats.inc("swarm.layer_dtype=" + l.get("dtype", "f8"))
-    if any(np.isnan(v).any() for v in lay_vals) and len(lay_vals) > 1:
-        stats.inc("probe.nan_value_in_one_layer_next_to_other_layers")
+    if any((~np.isfinite(v)).any() for v in lay_vals) and len(lay_vals) > 1:
+        stats.inc("probe.nonfinite_value_in_one_layer_next_to_other_layers")
     if len({l.get("dtype", "f8") for l in case["layers"]}) > 1:
         stats.inc("probe.layers_of_different_dtypes_in_one_call")
     sums = np.zeros((len(lay_vals), ny, nx))
@@ -696,7 +718,7 @@ def execute(case, stats):
                     tol = tol / np.maximum(lower, 1)
             elif lay_ops[k] != "sum":
                 raise HarnessError("generator produced an unknown operation")
-            bad = ok_bins & ~np.isnan(exp) & ~(np.abs(vals - exp) <= tol)
+            bad = ok_bins & np.isfinite(exp) & ~(np.abs(vals - exp) <= tol)
             if np.any(bad):
                 b = tuple(np.argwhere(bad)[0])
                 V("values", label, {"effect": lay_ops[k], "when": label}, {"layer": k, "bin": list(b), "got": float(vals[b]), "want": float(exp[b])})
@@ -727,7 +749,7 @@ def execute(case, stats):
                 with np.errstate(all="ignore"):
                     exp = np.where(lower > 0, exp / np.maximum(lower, 1), 0.0)
                     tol = tol / np.maximum(lower, 1)
-            bad = ok_bins & ~np.isnan(exp) & ~(np.abs(vals - exp) <= tol)
+            bad = ok_bins & np.isfinite(exp) & ~(np.abs(vals - exp) <= tol)
             if np.any(bad):
                 b = tuple(np.argwhere(bad)[0])
                 V("values", label, {"effect": lay_ops[k], "when": label}, {"layer": k, "bin": list(b), "got": float(vals[b]), "want": float(exp[b])})
